@@ -263,26 +263,23 @@ Proof.
 Qed.
 
 Lemma related_complete fuel frs o mix unp rel :
-  related fuel frs mix unp = Some rel -> covered frs o mix unp = true ->
+  related fuel frs mix unp = Some rel -> covered frs o rel unp = true ->
   forall n, reach frs (sel_spreads (o_sel o)) n -> In n rel.
 Proof.
   unfold related, covered. intros Hrel Hc n Hr.
   destruct (frag_names fuel frs mix) as [l|] eqn:El; [|discriminate]. inversion Hrel; subst; clear Hrel.
   apply andb_true_iff in Hc as [Hc1 Hc2]. rewrite forallb_forall in Hc1, Hc2.
-  assert (Hrec : forall m, In m (mix ++ unp) -> In m (l ++ unp)).
-  { intros m Hm. apply in_app_or in Hm as [Hm|Hm]; apply in_or_app;
-      [left; eapply frag_names_incl; eassumption | right; exact Hm]. }
-  apply (proj2 (sorted_set_In _ _)). induction Hr.
-  - apply Hrec. apply mem_In. apply Hc1. assumption.
-  - apply in_app_or in IHHr as [Hm|Hm].
-    + apply in_or_app. left. eapply frag_names_closed; eassumption.
-    + apply Hrec. specialize (Hc2 m Hm). rewrite H in Hc2. rewrite forallb_forall in Hc2.
+  induction Hr.
+  - apply mem_In. apply Hc1. assumption.
+  - apply (proj1 (sorted_set_In _ _)) in IHHr. apply in_app_or in IHHr as [Hm|Hm].
+    + apply (proj2 (sorted_set_In _ _)). apply in_or_app. left. eapply frag_names_closed; eassumption.
+    + specialize (Hc2 m Hm). rewrite H in Hc2. rewrite forallb_forall in Hc2.
       apply mem_In. apply Hc2. assumption.
 Qed.
 
 Theorem related_exact fuel frs o mix unp rel :
   related fuel frs mix unp = Some rel ->
-  covered frs o mix unp = true -> recorded_reachable fuel frs o mix unp = true ->
+  covered frs o rel unp = true -> recorded_reachable fuel frs o mix unp = true ->
   (forall n, In n rel <-> reach frs (sel_spreads (o_sel o)) n) /\ NoDup rel.
 Proof.
   intros Hrel Hc Hr. split.
@@ -368,9 +365,10 @@ Lemma op_document_shape fuel C Sc frs ins o doc ins' :
   exists st rel defs,
     related fuel frs (ps_mix st) (ps_unp st) = Some rel /\ lookup_all frs rel = Some defs /\
     ins' = ps_ins st /\
-    doc = XOp (strip_op (apply_op ins' o)) :: map (fun f => XFrag (strip_fd (apply_fd ins' f))) defs.
+    doc = XOp (strip_op (apply_op ins' o)) :: map (fun f => XFrag (strip_fd (apply_fd ins' f))) defs /\
+    op_sets fuel C Sc frs ins o = Ok (ps_mix st, ps_unp st).
 Proof.
-  unfold op_document. destruct (String.eqb (o_name o) ""); [discriminate|].
+  unfold op_document, op_sets. destruct (String.eqb (o_name o) ""); [discriminate|].
   destruct (root_type_name Sc (o_kind o)) as [tn|]; simpl; [|discriminate].
   destruct (ptd fuel C Sc frs (map proj_frag frs) (fresh ins) (pascal_s (o_name o)) tn None (o_sel o) false)
     as [st|]; simpl; [|discriminate].
@@ -385,7 +383,7 @@ Theorem only_documented_rewrites fuel C Sc frs ins o doc ins' :
   exists defs, Forall (fun f => In f frs) defs /\
     map erase_ddef doc = XOp (strip_op o) :: map (fun f => XFrag (strip_fd f)) defs.
 Proof.
-  intros H Ho Hf. apply op_document_shape in H as (st & rel & defs & _ & Hl & -> & ->).
+  intros H Ho Hf. apply op_document_shape in H as (st & rel & defs & _ & Hl & -> & -> & _).
   apply lookup_all_In in Hl as [Hin _]. exists defs. split; [exact Hin|].
   rewrite map_cons, (erase_op _ _ Ho). f_equal. rewrite map_map.
   apply map_ext_in. intros f Hfi. apply erase_fd.
@@ -472,7 +470,7 @@ Theorem operation_name_is_single fuel C Sc frs ins o doc ins' :
   exists o', ops_of doc = [o'] /\ o_name o' = method_opname o /\ o_kind o' = o_kind o /\
              o_vars o' = o_vars o /\ o_dirs o' = o_dirs o.
 Proof.
-  intro H. apply op_document_shape in H as (st & rel & defs & _ & _ & -> & ->).
+  intro H. apply op_document_shape in H as (st & rel & defs & _ & _ & -> & -> & _).
   exists (strip_op (apply_op (ps_ins st) o)). split; [|simpl; auto].
   unfold ops_of. simpl. f_equal. induction defs as [|f r IH]; simpl; [reflexivity | exact IH].
 Qed.
@@ -510,8 +508,180 @@ Proof.
   inversion Hd; subst; clear Hd.
   rewrite (doc_fragment_names_shape _ defs (fun f => strip_fd (apply_fd (ps_ins st) f))) by reflexivity.
   apply lookup_all_In in El as [_ ->].
-  unfold exact_guard in Hg. apply andb_true_iff in Hg as [Hc Hr].
+  unfold exact_guard in Hg. rewrite Er in Hg. apply andb_true_iff in Hg as [Hc Hr].
   eapply related_exact; eassumption.
+Qed.
+
+(* ---------------------------------------------------------------- the traversal records only reachable fragments *)
+Lemma fold_left_err {A X} (F : res A -> X -> res A) l m :
+  (forall m x, F (Err m) x = Err m) -> fold_left F l (Err m) = Err m.
+Proof. intro H. induction l as [|x l IH]; simpl; [reflexivity|]. rewrite H. exact IH. Qed.
+
+Lemma fold_left_res_inv {A X} (F : res A -> X -> res A) (P : A -> Prop) l :
+  (forall m x, F (Err m) x = Err m) ->
+  (forall acc x a', In x l -> P acc -> F (Ok acc) x = Ok a' -> P a') ->
+  forall init r, P init -> fold_left F l (Ok init) = Ok r -> P r.
+Proof.
+  intros He. induction l as [|x l IH]; intros Hs init r Hi Hf; simpl in Hf.
+  - inversion Hf; subst. exact Hi.
+  - destruct (F (Ok init) x) as [a'|m] eqn:E.
+    + eapply IH; [| | exact Hf].
+      * intros acc y a'' Hy. apply Hs. right. exact Hy.
+      * eapply Hs; [left; reflexivity | exact Hi | exact E].
+    + rewrite fold_left_err in Hf by exact He. discriminate.
+Qed.
+
+Lemma spreads_in s sels : In s sels -> incl (spreads_of s) (sel_spreads sels).
+Proof. intros H n Hn. unfold sel_spreads. apply in_flat_map. exists s. auto. Qed.
+
+Section Sound.
+  Variable Sc : schema.
+  Variable frs : list fdef.
+
+  Definition rs_inv (sels : list fsel) (acc : list fnode' * list string * list string) : Prop :=
+    let '(fields, mix, unp) := acc in
+    (forall n, In n mix \/ In n unp -> reach frs (sel_spreads sels) n) /\
+    (forall f sub n, In f fields -> n_sub f = Some sub -> In n (sel_spreads sub) -> reach frs (sel_spreads sels) n).
+
+  Lemma resolve'_sound : forall fuel sels root r,
+    resolve' fuel Sc frs sels root = Ok r -> rs_inv sels r.
+  Proof.
+    induction fuel as [|fuel IH]; intros sels root r H; [discriminate|].
+    cbn [resolve'] in H.
+    eapply (fold_left_res_inv _ (rs_inv sels)); [| | | exact H].
+    - intros m x. reflexivity.
+    - intros [[fields mix] unp] s a' Hs [Hm Hf] E. cbn [bind] in E.
+      pose proof (spreads_in s sels Hs) as Hin.
+      destruct s as [id al n args ds sub | n ds | tc ds sub | ].
+      + inversion E; subst; clear E. split; [exact Hm|].
+        intros f sub' k Hk Hsub Hn. apply in_app_or in Hk as [Hk|[<-|[]]]; [eapply Hf; eassumption|].
+        cbn [n_sub] in Hsub. subst sub. apply reach_direct. apply Hin. cbn [spreads_of]. exact Hn.
+      + destruct (lookup_fdef frs n) as [f|] eqn:El; [|discriminate].
+        destruct (lookup_type Sc root); [|discriminate].
+        destruct (lookup_type Sc (fd_on f)) as [fd|]; [|discriminate].
+        assert (Hn : reach frs (sel_spreads sels) n) by (apply reach_direct, Hin; left; reflexivity).
+        destruct (negb (unpack_fragment Sc (proj_frag f) (Some root))).
+        * inversion E; subst; clear E. split; [|exact Hf].
+          intros k [Hk|Hk]; [|apply Hm; right; exact Hk].
+          apply in_app_or in Hk as [Hk|[<-|[]]]; [apply Hm; left; exact Hk | exact Hn].
+        * destruct (String.eqb (fd_on f) root || (is_abstract fd && is_sub_type Sc (fd_on f) root)).
+          -- destruct (resolve' fuel Sc frs (fd_sel f) root) as [[[f2 m2] u2]|] eqn:Er; cbn [bind] in E; [|discriminate].
+             inversion E; subst; clear E. apply IH in Er. destruct Er as [Hm2 Hf2].
+             assert (Hthru : forall k, reach frs (sel_spreads (fd_sel f)) k -> reach frs (sel_spreads sels) k)
+               by (intros k Hk; eapply reach_through; eassumption).
+             split.
+             ++ intros k [Hk|Hk].
+                ** apply in_app_or in Hk as [Hk|Hk]; [apply Hm; left; exact Hk | apply Hthru, Hm2; left; exact Hk].
+                ** apply in_app_or in Hk as [Hk|[<-|Hk]]; [apply Hm; right; exact Hk | exact Hn | apply Hthru, Hm2; right; exact Hk].
+             ++ intros g sub' k Hk Hsub Hkn. apply in_app_or in Hk as [Hk|Hk]; [eapply Hf; eassumption|].
+                apply Hthru. eapply Hf2; eassumption.
+          -- inversion E; subst. split; assumption.
+      + destruct tc as [tc|]; [|discriminate].
+        destruct (inline_root_type Sc tc root) as [r0|].
+        * destruct (resolve' fuel Sc frs sub r0) as [[[f2 m2] u2]|] eqn:Er; cbn [bind] in E; [|discriminate].
+          inversion E; subst; clear E. apply IH in Er. destruct Er as [Hm2 Hf2].
+          assert (Hsubi : forall k, reach frs (sel_spreads sub) k -> reach frs (sel_spreads sels) k).
+          { intros k Hk. eapply reach_trans; [|exact Hk]. intros m Hmi. apply reach_direct, Hin. exact Hmi. }
+          split.
+          -- intros k [Hk|Hk]; apply in_app_or in Hk as [Hk|Hk];
+               [apply Hm; left; exact Hk | apply Hsubi, Hm2; left; exact Hk
+               | apply Hm; right; exact Hk | apply Hsubi, Hm2; right; exact Hk].
+          -- intros g sub' k Hk Hsub Hkn. apply in_app_or in Hk as [Hk|Hk]; [eapply Hf; eassumption|].
+             apply Hsubi. eapply Hf2; eassumption.
+        * inversion E; subst. split; assumption.
+      + inversion E; subst; clear E. split; [exact Hm|].
+        intros f sub' k Hk Hsub Hn. apply in_app_or in Hk as [Hk|[<-|[]]]; [eapply Hf; eassumption|].
+        discriminate Hsub.
+    - split; [intros n [[]|[]] | intros f sub n []].
+  Qed.
+
+  Definition grows (R : string -> Prop) (st st' : pst) : Prop :=
+    forall n, In n (ps_mix st') \/ In n (ps_unp st') -> (In n (ps_mix st) \/ In n (ps_unp st)) \/ R n.
+
+  Lemma grows_refl R st : grows R st st.
+  Proof. intros n H. left. exact H. Qed.
+
+  Lemma grows_trans R st1 st2 st3 : grows R st1 st2 -> grows R st2 st3 -> grows R st1 st3.
+  Proof. intros H12 H23 n H. destruct (H23 n H) as [H2|Hr]; [apply H12; exact H2 | right; exact Hr]. Qed.
+
+  Lemma grows_weaken (R R' : string -> Prop) st st' : (forall n, R n -> R' n) -> grows R st st' -> grows R' st st'.
+  Proof. intros Hw H n Hn. destruct (H n Hn) as [H1|H2]; [left; exact H1 | right; apply Hw; exact H2]. Qed.
+
+  Lemma sel_spreads_view ins id l : sel_spreads (view ins id l) = sel_spreads l.
+  Proof. unfold view. destruct (mem_nat id ins); reflexivity. Qed.
+
+  Lemma ptd_sound C pfrs : forall fuel st cn tn sid raw at' st',
+    ptd fuel C Sc frs pfrs st cn tn sid raw at' = Ok st' ->
+    grows (fun n => reach frs (sel_spreads raw) n) st st'.
+  Proof.
+    induction fuel as [|fuel IH]; intros st cn tn sid raw at' st' H; [discriminate|].
+    cbn [ptd] in H. destruct (mem cn (ps_pub st)); [inversion H; subst; apply grows_refl|].
+    set (sels := match sid with Some id => view (ps_ins st) id raw | None => raw end) in H.
+    assert (Hsp : sel_spreads sels = sel_spreads raw)
+      by (unfold sels; destruct sid; [apply sel_spreads_view | reflexivity]).
+    destruct (resolve' fuel Sc frs sels tn) as [[[fields0 mix] unp]|] eqn:Er; cbn [bind] in H; [|discriminate].
+    apply resolve'_sound in Er. destruct Er as [Hm Hf]. rewrite Hsp in Hm, Hf.
+    match type of H with fold_left _ ?FS (Ok ?ST1) = _ => set (fields := FS) in H; set (st1 := ST1) in H end.
+    assert (H01 : grows (fun n => reach frs (sel_spreads raw) n) st st1).
+    { intros n Hn. unfold st1 in Hn. cbn [ps_mix ps_unp] in Hn. destruct Hn as [Hn|Hn]; apply in_app_or in Hn as [Hn|Hn].
+      - left; left; exact Hn.
+      - right. apply Hm. left. exact Hn.
+      - left; right; exact Hn.
+      - right. apply Hm. right. exact Hn. }
+    assert (Hfields : forall f sub n, In f fields -> n_sub f = Some sub -> In n (sel_spreads sub) ->
+                                      reach frs (sel_spreads raw) n).
+    { intros f sub n Hi Hs Hn. unfold fields in Hi.
+      destruct (at' && negb (existsb (fun f0 => String.eqb (n_name f0) "__typename") fields0)).
+      - destruct Hi as [<-|Hi]; [discriminate Hs | eapply Hf; eassumption].
+      - eapply Hf; eassumption. }
+    eapply (fold_left_res_inv _ (grows (fun n => reach frs (sel_spreads raw) n) st)); [| | exact H01 | exact H].
+    - intros m x. reflexivity.
+    - intros acc f a' Hfi Hacc E. cbn [bind] in E.
+      destruct (schema_field_type Sc tn (n_name f)) as [t|]; cbn [bind] in E; [|discriminate].
+      destruct (n_sub f) as [sub|] eqn:Es; [|inversion E; subst; exact Hacc].
+      destruct (field_type_ann C Sc pfrs fuel (Some (map proj_sel sub)) t true
+                  (cn +++ pascal_s (py_field_name C (node_key f))) false) as [r|]; cbn [bind] in E; [|discriminate].
+      eapply (fold_left_res_inv _ (grows (fun n => reach frs (sel_spreads raw) n) st)); [| | exact Hacc | exact E].
+      + intros m x. reflexivity.
+      + intros acc2 rc a2 _ Hacc2 E2. cbn [bind] in E2. apply IH in E2.
+        eapply grows_trans; [exact Hacc2|]. eapply grows_weaken; [|exact E2].
+        intros n Hn. eapply reach_trans; [|exact Hn]. intros m Hmi. eapply Hfields; eassumption.
+  Qed.
+
+  (* what the operation's generator recorded is reachable from the operation: the second half of the
+     guard of fragments_exact always holds *)
+  Theorem recorded_is_reachable fuel C ins o mix unp l :
+    op_sets fuel C Sc frs ins o = Ok (mix, unp) ->
+    frag_names fuel frs (sel_spreads (o_sel o)) = Some l ->
+    recorded_reachable fuel frs o mix unp = true.
+  Proof.
+    unfold op_sets, recorded_reachable. intros H Hl. rewrite Hl.
+    destruct (root_type_name Sc (o_kind o)) as [tn|]; cbn [bind] in H; [|discriminate].
+    destruct (ptd fuel C Sc frs (map proj_frag frs) (fresh ins) (pascal_s (o_name o)) tn None (o_sel o) false)
+      as [st|] eqn:E; cbn [bind] in H; [|discriminate].
+    inversion H; subst; clear H. apply ptd_sound in E.
+    apply forallb_forall. intros n Hn. apply mem_In. eapply frag_names_complete; [exact Hl|].
+    apply in_app_or in Hn. destruct (E n Hn) as [[[]|[]]|Hr]. exact Hr.
+  Qed.
+End Sound.
+
+
+(* fragments_exact with the coverage guard alone, stated on the sent document *)
+Theorem fragments_exact_covered Sc fuel C frs ins o doc ins' mix unp l :
+  op_document fuel C Sc frs ins o = Ok (doc, ins') ->
+  op_sets fuel C Sc frs ins o = Ok (mix, unp) ->
+  frag_names fuel frs (sel_spreads (o_sel o)) = Some l ->
+  covered frs o (doc_fragment_names doc) unp = true ->
+  (forall n, In n (doc_fragment_names doc) <-> reach frs (sel_spreads (o_sel o)) n)
+  /\ NoDup (doc_fragment_names doc).
+Proof.
+  intros Hd Hs Hl Hc. eapply fragments_exact; [exact Hd | exact Hs |].
+  unfold exact_guard.
+  pose proof Hd as Hd'. apply op_document_shape in Hd' as (st & rel & defs & Er & Ell & -> & -> & Hs').
+  rewrite (doc_fragment_names_shape _ defs (fun f => strip_fd (apply_fd (ps_ins st) f))) in Hc by reflexivity.
+  apply lookup_all_In in Ell as [_ Ell]. rewrite Ell in Hc.
+  assert (E : ps_mix st = mix /\ ps_unp st = unp) by (rewrite Hs in Hs'; inversion Hs'; auto).
+  destruct E as [<- <-]. rewrite Er, Hc. cbn [andb]. eapply recorded_is_reachable; eassumption.
 Qed.
 
 (* ---------------------------------------------------------------- witnesses *)
